@@ -93,7 +93,16 @@ const UDELTA_VALS: &[(f64, f64)] = &[(0.0, 32767.0), (0.0, 32768.0), (0.0, 40000
 const SCALE_VALS: &[f64] = &[1.9999, 1.99993896484375, 1.99997, 2.0, 2.0000001, 2.5, 4.0, -1.9999, -2.0, -2.0000001, -2.5, 1.5, -1.25, 40.0];
 
 pub const FIELDS: &[&str] = &["coord", "ptdelta", "compoff", "compscale", "advance", "height", "kern", "anchor", "metric",
-                              "gvardelta", "hvardelta", "vvardelta", "compoffdelta", "kerndelta", "anchordelta"];
+                              "gvardelta", "hvardelta", "vvardelta", "compoffdelta", "kerndelta", "anchordelta",
+                              "tsb", "vextent", "compbbox"];
+
+/// (typo ascender = vertical origin, yMax of glyph a): top side bearing = origin - yMax at / beyond the i16 limits
+const TSB_VALS: &[(f64, f64)] = &[(30000.0, -2767.0), (30000.0, -2768.0), (30000.0, -5000.0), (-20000.0, 12768.0), (-20000.0, 12769.0),
+                                  (-20000.0, 15000.0), (32767.0, -1.0), (32767.0, 0.0), (20000.0, -20000.0), (-32768.0, 1.0)];
+/// yMin of a tall glyph a (yMax = 0, vertical origin 16000, advance height 1000): yMaxExtent = 16000 - yMin, bottom side bearing = -15000 + yMin
+const VEXT_VALS: &[f64] = &[-16767.0, -16768.0, -17768.0, -17769.0, -20000.0, -16000.0, -25000.0, -32768.0];
+/// x offset of the component (glyph a spans x = 200..300): composite xMin = off + 200, xMax = off + 300
+const CBOX_VALS: &[f64] = &[32467.0, 32468.0, 32567.0, 32568.0, 32767.0, -32968.0, -32969.0, -32767.0, 32000.0, -33000.0];
 
 fn pick_val(rng: &mut Rng, j: usize, table: &[f64], limits: &[f64]) -> f64 {
     if j < table.len() { return table[j]; }
@@ -249,6 +258,36 @@ pub fn gen_case(rng: &mut Rng, i: usize) -> Case {
             d.masters[0].kerning = vec![("a".into(), "b".into(), v0)];
             d.masters[1].kerning = vec![("a".into(), "b".into(), v1)];
             Case { field, vals: vec![v0, v1], sub: String::new(), design: d, big: false }
+        }
+        "tsb" => {
+            let (vorg, ymax) = if j < TSB_VALS.len() { TSB_VALS[j] } else {
+                let vorg = rng.range(-32768, 32767) as f64;
+                let t = *rng.pick(&[32767.0, 32768.0, -32768.0, -32769.0, 40000.0, -40000.0]) + rng.range(-2, 2) as f64;
+                (vorg, (vorg - t).clamp(-32600.0, 32600.0))
+            };
+            let mut d = base_design(false, true);
+            d.masters[0].info.push(("openTypeOS2TypoAscender".to_string(), vorg));
+            // a triangle whose highest point is at ymax
+            d.masters[0].glyphs.get_mut("a").unwrap().contours = vec![vec![line(300.0, ymax), line(200.0, ymax - 20.0), line(260.0, ymax - 90.0)]];
+            Case { field, vals: vec![vorg, ymax], sub: String::new(), design: d, big: false }
+        }
+        "vextent" => {
+            let ymin = if j < VEXT_VALS.len() { VEXT_VALS[j] } else { -(rng.range(15000, 32768) as f64) };
+            let mut d = base_design(false, true);
+            d.masters[0].info.push(("openTypeOS2TypoAscender".to_string(), 16000.0));
+            d.masters[0].glyphs.get_mut("a").unwrap().contours = vec![vec![line(300.0, ymin), line(400.0, ymin + 50.0), line(350.0, 0.0)]];
+            Case { field, vals: vec![ymin], sub: String::new(), design: d, big: false }
+        }
+        "compbbox" => {
+            let off = if j < CBOX_VALS.len() { CBOX_VALS[j] } else {
+                let s = if rng.chance(1, 2) { 1.0 } else { -1.0 };
+                s * (32767.0 - rng.range(0, 420) as f64)
+            };
+            let mut d = base_design(false, false);
+            let g = d.masters[0].glyphs.get_mut("b").unwrap();
+            g.contours.clear();
+            g.components = vec![Comp { base: "a".into(), t: [1.0, 0.0, 0.0, 1.0, off, 0.0] }];
+            Case { field, vals: vec![off], sub: String::new(), design: d, big: false }
         }
         _ => {
             // anchordelta
@@ -434,7 +473,15 @@ pub fn dump_gpos_flat(font: &FontRef) -> Vec<S> {
         }
     }
     let ivs = font.gdef().ok().and_then(|g| g.item_var_store()).and_then(|r| r.ok()).map(|ivs| dump::dump_ivs(&ivs));
-    vec![S::k1("kernpairs", S::list(pairs)), S::k1("anchors", S::list(anchors)), S::k1("gdefivs", S::opt(ivs))]
+    let mut out = vec![S::k1("kernpairs", S::list(pairs)), S::k1("anchors", S::list(anchors)), S::k1("gdefivs", S::opt(ivs))];
+    if let Ok(v) = font.vhea() {
+        out.push(S::k1("vhea", S::list([
+            S::int(v.ascender().to_i16()), S::int(v.descender().to_i16()), S::int(v.line_gap().to_i16()),
+            S::usize(v.advance_height_max().to_u16() as usize), S::int(v.min_top_side_bearing().to_i16()),
+            S::int(v.min_bottom_side_bearing().to_i16()), S::int(v.y_max_extent().to_i16()),
+        ])));
+    }
+    out
 }
 
 /// counts only (heavy cases): maxp, number of post names, and the shape of the first four glyphs
